@@ -18,7 +18,7 @@ regenerates the block with the same two ExecutionData fields (message_ids, event
 production feeds to generate; (4) no mode flag in the shared path: ExecutionOptionsInner has the
 reviewed field list and `dry_run` is read only in `execute` and attempt_tx_execution_with_vm;
 (5) same change set: in both modes data.changes is block_storage_tx.into_changes() taken after all
-transactions.
+transactions. (6) a pre-checked transaction reaches execution without a re-check only on the `==` edge of the consensus-parameters-version test; an expired pre-checked transaction is refused; (7) after spend_input_utxos the only error exits of execute_chargeable_transaction are the `?` of the storage steps, and the duplicate-id rejection precedes execution (production and validation record the same events).
 """
 NOT_DECIDED = """Equality of the resulting values (the VM, mint construction, state roots) — a runtime relation."""
 
